@@ -43,7 +43,11 @@ var runners = map[string]runner{
 		ribhist.RunC03(rep, tier)
 	}},
 	"C16": {"model_checking", ribhist.RunC16},
-	"C07": {"model_checking", func(rep *report.Report, tier string) { getenum.Run(rep, tier); ribhist.RunC07Hist(rep, tier) }},
+	"C07": {"model_checking", func(rep *report.Report, tier string) {
+		getenum.Run(rep, tier)
+		ribhist.RunC07Hist(rep, tier)
+		conc.RunC07Concurrent(rep, tier)
+	}},
 	"C12": {"model_checking", malformed.Run},
 	"C08": {"model_checking", flushenum.Run},
 	"C04": {"model_checking", func(rep *report.Report, tier string) {
@@ -77,6 +81,7 @@ var children = map[string]func(rep *report.Report, tier, part string){
 	"C13": clienth.ChildC13,
 	"C14": clienth.ChildC14,
 	"C04": conc.ChildC06Concurrent,
+	"C07": conc.ChildC06Concurrent,
 	"C06": func(rep *report.Report, tier, part string) {
 		if strings.HasPrefix(part, "lin/") {
 			conc.ChildC06Concurrent(rep, tier, part)
